@@ -293,6 +293,10 @@ def havoc_like(v, name):
 # --------------------------------------------------------------------------------------------
 
 def _sym_isinstance(obj, cls):
+    if cls is _sym_int:
+        cls = int
+    elif cls is _sym_float:
+        cls = float
     if isinstance(obj, Obj):
         real = object.__getattribute__(obj, "_pv_real")
         if isinstance(cls, tuple):
@@ -301,6 +305,9 @@ def _sym_isinstance(obj, cls):
         return isinstance(virt, type) and issubclass(real, virt)
     if isinstance(cls, tuple):
         return any(_sym_isinstance(obj, c) for c in cls)
+    chk = getattr(cls, "__pv_instancecheck__", None)
+    if chk is not None:
+        return bool(chk(obj))
     hook = getattr(type(obj), "__pv_isinstance__", None)
     if hook is not None:
         return bool(hook(obj, cls)) or isinstance(obj, cls)
@@ -326,6 +333,11 @@ def _sym_int(x=0, *a):
         # int() truncates toward zero
         run = sym.cur()
         import z3
+        if z3.is_app_of(x.e, z3.Z3_OP_TO_REAL):
+            return sym.SInt(x.e.arg(0))
+        n0 = sym.num_of(z3.simplify(x.e))
+        if n0 is not None:
+            return int(n0)
         k = run.fresh("trunc", "int")
         e = x.e
         kr = z3.ToReal(k)
@@ -486,6 +498,11 @@ class ShadowModule:
         ast.fix_missing_locations(mod)
         code = compile(mod, module_path(self.modname), "exec")
         loc = {}
+        if "." in qual:
+            # default arguments of methods are evaluated in the class body's scope
+            real_cls = getattr(self.real, qual.split(".")[0], None)
+            if real_cls is not None:
+                loc.update({k: v for k, v in vars(real_cls).items() if not k.startswith("__")})
         exec(code, self.ns, loc)
         fn = loc[node.name]
         w.loaded[f"{self.modname}:{qual}"] = source_hash(self.modname, qual)
@@ -550,6 +567,8 @@ class _Super:
         if hit is None:
             if name == "__init__":
                 return lambda *a, **k: None
+            if name == "__setattr__":
+                return lambda n, v: object.__getattribute__(obj, "__dict__").__setitem__(n, v)
             raise AttributeError(name)
         kind, fn, _ = hit
         if kind == "staticmethod":
